@@ -4,7 +4,7 @@
    that are run on binary64 against the C library) into MathComp matrices. *)
 From Coq Require Import Floats.
 From mathcomp Require Import all_ssreflect all_algebra.
-From LS Require Import NumOps RcfOps F64Ops Kernels KernelsSpec XSortSpec.
+From LS Require Import NumOps RcfOps F64Ops Kernels KernelsSpec XSortSpec Euclid CovSpec PreprocessSpec PreprocessSpec2.
 Set Implicit Arguments. Unset Strict Implicit. Unset Printing Implicit Defensive.
 Import Order.TTheory GRing.Theory Num.Theory.
 Local Open Scope ring_scope.
@@ -71,6 +71,18 @@ Proof.
 split=> //; rewrite /cleanm /cleanv /= ?andbT;
   by rewrite !cleanx_small // ?ler_nat // ?ler0n // ?ler01 // (ler_nat _ 1 2).
 Qed.
+(* column statistics and covariance of the model are the textbook statistics (complete data) *)
+Theorem C11_column_variance (c : seq R) : cleanv c -> col_var c = (\sum_(x <- c) (x - col_mean c) ^+ 2) / ((size c).-1)%:R.
+Proof. exact: col_var_clean. Qed.
+Theorem C11_covariance_entry (M : seq (seq R)) i j : (i < ncols M)%N -> (j < ncols M)%N ->
+  (nth [::] (covariance M) i)`_j = (\sum_(k < size M) (dev M i)`_k * (dev M j)`_k) / ((size M).-1)%:R.
+Proof. exact: cov_entry. Qed.
+Theorem C11_covariance_symmetric (M : seq (seq R)) i j : (i < ncols M)%N -> (j < ncols M)%N ->
+  (nth [::] (covariance M) i)`_j = (nth [::] (covariance M) j)`_i.
+Proof. exact: covariance_symmetric. Qed.
+Theorem C11_covariance_cauchy_schwarz (M : seq (seq R)) i j : (i < ncols M)%N -> (j < ncols M)%N ->
+  (nth [::] (covariance M) i)`_j ^+ 2 <= (nth [::] (covariance M) i)`_i * (nth [::] (covariance M) j)`_j.
+Proof. exact: covariance_cauchy_schwarz. Qed.
 End C11.
 
 (* the same definitions executed on binary64 (what the correspondence check runs) *)
@@ -93,4 +105,8 @@ Print Assumptions C11_transpose_involutive.
 Print Assumptions C11_sort_perm.
 Print Assumptions C11_sort_sorted.
 Print Assumptions C11_rsort_perm.
+Print Assumptions C11_column_variance.
+Print Assumptions C11_covariance_entry.
+Print Assumptions C11_covariance_symmetric.
+Print Assumptions C11_covariance_cauchy_schwarz.
 Print Assumptions C11_f64_runs.
